@@ -35,6 +35,9 @@ Decided (all rules compare what the code does - values, decision tables, interpr
         when ``send_connect`` is true, with a flow bound to the tunnel connection whose request is the CONNECT; every ``SendData`` of the
         handshake targets the tunnel connection and the bytes carrying the credentials are among them; the tunnel connection is the
         ``Server`` that ``make`` builds for the address in ``ctx.server.via`` and not the destination connection.
+Both interpreters are _helpers_C.InitLayerInterp: module-level tables completed by later top-level statements are built like the import
+builds them, and an exception raised by a trusted library keeps its class hierarchy (``except ValueError`` catches
+``ipaddress.AddressValueError``).
 NOT decided: what an addon that re-targets ``server_conn.via`` causes; the bytes on the wire (HTTP/1 assembly is trusted); that the HTTP
 layer really sends a request only on a connection matching its scheme (connection reuse: C08 R08.1/R08.2 - a relaxed
 ``connection_spec_matches`` that lets a plain request ride an existing CONNECT+TLS tunnel is a C08 violation and invisible here).
@@ -502,7 +505,7 @@ class HookInterp:
 
     def __init__(self, ctx):
         from ._helpers_C import CachedModel
-        from ._helpers_C import LayerInterp
+        from ._helpers_C import InitLayerInterp as LayerInterp  # (+ module-level initialisation statements, library exception hierarchy)
 
         self.ctx = ctx
         # one interpreter for all cells (module constants, class look-ups are the same in every cell); logging is a no-op; private helpers,
@@ -641,7 +644,7 @@ class UpstreamWorld:
 
     def __init__(self, ctx):
         from ._helpers_C import CachedModel
-        from ._helpers_C import LayerInterp
+        from ._helpers_C import InitLayerInterp as LayerInterp  # (+ module-level initialisation statements, library exception hierarchy)
         from ._helpers_C import OpenRec
         from ..pyint import ClassRef
         from ..pyint import DictRec
